@@ -174,12 +174,13 @@ def entNmArrWrites (guard : Option Nat) (parts : Nat) : List Nat :=
 def entNmArr (st : Storage) (guard : Option Nat) (parts : Nat) : Out Unit :=
   runWrites st (entNmArrWrites guard parts)
 
-/-- STEPcomplex ctor: `for( j = 0; names[j]; j++ ) nms[j] = …;  nms[j] = NULL;` over what entNmArr holds -/
-def nmsWrites (guard : Option Nat) (parts : Nat) : List Nat :=
-  copyWrites none (entNmArrStored guard parts)
+/-- STEPcomplex ctor: `for( j = 0; names[j] [&& j < g]; j++ ) nms[j] = …;  nms[j] = NULL;` over what the caller
+collected (`callerMax` = the caller's cap on the number of part names; none = no cap) -/
+def nmsWrites (calleeGuard callerMax : Option Nat) (parts : Nat) : List Nat :=
+  copyWrites calleeGuard (entNmArrStored callerMax parts)
 
-def nms (st : Storage) (guard : Option Nat) (parts : Nat) : Out Unit :=
-  runWrites st (nmsWrites guard parts)
+def nms (st : Storage) (calleeGuard callerMax : Option Nat) (parts : Nat) : Out Unit :=
+  runWrites st (nmsWrites calleeGuard callerMax parts)
 
 /-! ### sprintf into a fixed array -/
 
